@@ -1,5 +1,6 @@
 //! Structured large pattern families: deterministic, designed to span / evict many blocks.
 
+#[derive(Clone)]
 pub struct Family {
     pub name: String,
     pub pats: Vec<Vec<u8>>,
@@ -595,4 +596,42 @@ pub fn nfb_values(level: u32) -> Vec<Option<u32>> {
         v.push(None);
         v
     }
+}
+
+/// Fail chains whose j-th hop is the first state with the dead fail link (leftmost kinds): a word
+/// w of L distinct letters, the patterns w[i..]+x for i = 0..L (one suffix chain of length L), plus a
+/// marker that makes the state of w[j..] an output state (mode 0) or a state below an output state
+/// (mode 1), with or without the rest of the chain; L = 3..5, every j. `cjk` maps the letters to
+/// three-byte characters.
+pub fn dead_hop_grid(cjk: bool) -> Vec<Family> {
+    let ascii: [&str; 7] = ["a", "b", "c", "d", "e", "x", "y"];
+    let wide: [&str; 7] = ["\u{6771}", "\u{4eac}", "\u{90fd}", "\u{5e9c}", "\u{6c11}", "\u{5e81}", "\u{5e02}"];
+    let l = if cjk { wide } else { ascii };
+    let word = |idx: &[usize]| -> Vec<u8> { idx.iter().flat_map(|&i| l[i].as_bytes().to_vec()).collect() };
+    let mut v = Vec::new();
+    for len in 3..=5usize {
+        let w: Vec<usize> = (0..len).collect();
+        for j in 1..len {
+            for mode in 0..2 {
+                for keep_tail in [false, true] {
+                    let mut set = std::collections::BTreeSet::new();
+                    let last = if keep_tail { len - 1 } else { j };
+                    for i in 0..=last {
+                        let mut p = w[i..].to_vec();
+                        p.push(5);
+                        set.insert(word(&p));
+                    }
+                    let marker: Vec<usize> = if mode == 0 { w[j..].to_vec() } else { w[j..len - 1].to_vec() };
+                    if marker.is_empty() {
+                        continue;
+                    }
+                    set.insert(word(&marker));
+                    // a competitor that starts at the mismatch position
+                    set.insert(word(&[6]));
+                    v.push(Family { name: format!("deadhop_{}_{len}_{j}_{mode}_{}", if cjk { "cjk" } else { "ascii" }, u8::from(keep_tail)), pats: set.into_iter().collect(), utf8: true });
+                }
+            }
+        }
+    }
+    v
 }
